@@ -78,7 +78,7 @@ def sentOp (preds : List Predictor) (models : List WModel) (s : Sentence) (op : 
     match r with
     | .ok s' => some (s', "ok")
     | .err _ => some (s, "err")
-    | .panic _ => some (s, "panic")
+    | .panic p => some (s, if p.startsWith "caller:" then "oob" else "panic")
     | .ub _ => some (s, "ub")
   match op.splitOn ":" with
   | ["obs"] => some (s, showObs s)
@@ -94,7 +94,11 @@ def sentOp (preds : List Predictor) (models : List WModel) (s : Sentence) (op : 
     let k ← k.toNat?
     let p ← preds[k]?
     ctor (p.predict k s)
-  | ["fill"] => ctor (s.fillTags (fun k => preds[k]?))
+  | ["fill"] =>
+    -- fill_tags() after predict() with a predictor built with predict_tags = false is a documented panic
+    match s.pred.bind (fun k => preds[k]?) with
+    | some p => if p.tagPredictor.isNone then some (s, "nofill") else ctor (s.fillTags (fun k => preds[k]?))
+    | none => ctor (s.fillTags (fun k => preds[k]?))
   | ["spec", k] => do
     let k ← k.toNat?
     let m ← models[k]?
